@@ -54,8 +54,12 @@ def mono : Bool → List Bool → Bool
 def PySig.DefaultsOk (s : PySig) : Prop := mono false ((s.po ++ s.pp).map PParam.hasD) = true
 
 /-- every initializer satisfies the hypotheses of the default-rendering theorems (`DExpr.good`) -/
-def PySig.GoodDefaults (s : PySig) : Prop :=
-  ∀ p ∈ s.po ++ s.pp ++ s.kw, ∀ d ∈ p.dflt, d.good = true
+def PySig.GoodDefaults (c : DCfg) (s : PySig) : Prop :=
+  ∀ p ∈ s.po ++ s.pp ++ s.kw, ∀ d ∈ p.dflt, d.good c = true
+
+/-- the input domain: every initializer is well-formed (bytes bodies are bytes-`repr` bodies) -/
+def PySig.WfDefaults (s : PySig) : Prop :=
+  ∀ p ∈ s.po ++ s.pp ++ s.kw, ∀ d ∈ p.dflt, d.wf = true
 
 def PySig.NoElideE (el : Ident → Bool) (s : PySig) : Prop :=
   (∀ p ∈ s.pp, el p.name = false) ∧ (∀ p ∈ s.va, el p.name = false) ∧
@@ -66,7 +70,8 @@ def PySig.NoElide (s : PySig) : Prop := s.NoElideE elide
 
 instance (s : PySig) : Decidable s.DefaultsOk := by unfold PySig.DefaultsOk; infer_instance
 instance (s : PySig) : Decidable s.NoElide := by unfold PySig.NoElide PySig.NoElideE; infer_instance
-instance (s : PySig) : Decidable s.GoodDefaults := by unfold PySig.GoodDefaults; infer_instance
+instance (c : DCfg) (s : PySig) : Decidable (s.GoodDefaults c) := by unfold PySig.GoodDefaults; infer_instance
+instance (s : PySig) : Decidable s.WfDefaults := by unfold PySig.WfDefaults; infer_instance
 
 inductive PKind | posOnly | pos | varArg | kwOnly | kwArg
 deriving DecidableEq, Repr
@@ -78,6 +83,15 @@ def PySig.summary (s : PySig) : List Summ :=
   s.po.map (fun p => (p.name, .posOnly, p.hasD)) ++ s.pp.map (fun p => (p.name, .pos, p.hasD)) ++
   s.va.toList.map (fun p => (p.name, .varArg, false)) ++ s.kw.map (fun p => (p.name, .kwOnly, p.hasD)) ++
   s.ka.toList.map (fun p => (p.name, .kwArg, false))
+
+/-- PEP 484's convention, which mypy's parser applies: a positional parameter named `__x` is positional-only
+    when every parameter before it is.  `normalize` moves the maximal run of such parameters behind the `/`. -/
+def elidedPrefix : List PParam → Nat
+  | [] => 0
+  | p :: r => if elide p.name then elidedPrefix r + 1 else 0
+
+def PySig.normalize (s : PySig) : PySig :=
+  { s with po := s.po ++ s.pp.take (elidedPrefix s.pp), pp := s.pp.drop (elidedPrefix s.pp) }
 
 /-! ### mypy's view: `Argument`s -/
 
@@ -125,10 +139,10 @@ def selfName : Ident := ['s', 'e', 'l', 'f']
 def clsName : Ident := ['c', 'l', 's']
 
 /-- the ArgSig of one argument (`first` = `i == 0`) -/
-def argItem (strLen : Nat → Nat) (first : Bool) (a : Arg) : Item :=
+def argItem (c : DCfg) (strLen : Nat → Nat) (first : Bool) (a : Arg) : Item :=
   let ann := if first && (a.name == selfName || a.name == clsName) then none else a.ann
   match a.dflt with
-  | some d => .param a.name (match ann with | some t => some t | none => inferType d) (some (defaultToks strLen d))
+  | some d => .param a.name (match ann with | some t => some t | none => inferType d) (some (defaultToks c strLen d))
   | none =>
     match a.kind with
     | .star => .vararg a.name ann
@@ -140,18 +154,21 @@ structure ESt where
   cnt : Nat        -- pos_only_marker_position
   idx : Nat        -- i of enumerate(o.arguments)
 
-/-- one iteration of the `for i, arg_ in enumerate(o.arguments)` loop; `magic` = name ∈ MAGIC_METHODS_POS_ARGS_ONLY -/
-def estep (strLen : Nat → Nat) (magic : Bool) (st : ESt) (a : Arg) : ESt :=
-  { cnt := if !magic && a.posOnly then st.cnt + 1 else st.cnt
+/-- one iteration of the `for i, arg_ in enumerate(o.arguments)` loop; `magic` = name ∈ MAGIC_METHODS_POS_ARGS_ONLY.
+    `contig` = the rule the checked tree implements for the `/` position (Gen/StubCfg.lean):
+      as found   `if actually_pos_only_args and arg_.pos_only: n += 1`
+      repaired   `… and kind.is_positional() and n == i` (only a contiguous prefix of positionals counts) -/
+def estep (c : DCfg) (strLen : Nat → Nat) (contig magic : Bool) (st : ESt) (a : Arg) : ESt :=
+  { cnt := if !magic && a.posOnly && (!contig || (a.kind == .pos && st.cnt == st.idx)) then st.cnt + 1 else st.cnt
     out := (if a.kind == .named && !(st.out.any Item.starred) then st.out ++ [.bareStar] else st.out)
-             ++ [argItem strLen (st.idx == 0) a]
+             ++ [argItem c strLen (st.idx == 0) a]
     idx := st.idx + 1 }
 
 /-- `list.insert(n, x)` -/
 def insertAt (n : Nat) (x : α) (l : List α) : List α := l.take n ++ x :: l.drop n
 
-def emitArgs (strLen : Nat → Nat) (magic : Bool) (args : List Arg) : List Item :=
-  let st := args.foldl (estep strLen magic) { out := [], cnt := 0, idx := 0 }
+def emitArgs (c : DCfg) (strLen : Nat → Nat) (contig magic : Bool) (args : List Arg) : List Item :=
+  let st := args.foldl (estep c strLen contig magic) { out := [], cnt := 0, idx := 0 }
   if st.cnt = 0 then st.out else insertAt st.cnt .slash st.out
 
 /-! ### Python's `parameters` grammar as a parser of the items -/
